@@ -336,5 +336,9 @@ def run(repo: Repo, rep: Report, tier: str) -> None:
     from .c06 import mask_rule
 
     mask_rule(repo, rep, "C01.R14")
+    from .memo import memo_rule
+
+    memo_rule(repo, rep, "C01.R15")
+
 
 
